@@ -11,18 +11,6 @@ static int ref_group_width(uint64_t v) {
     return w <= 1 ? 1 : w <= 2 ? 2 : w <= 4 ? 4 : 8;
 }
 static int ref_bits(uint64_t v) { return v ? 64 - __builtin_clzll(v) : 0; }
-/* reference tagged-varint reader (format: see ref_scalar.h) */
-static int ref_tagged_read(const uint8_t *p, uint64_t *v) {
-    if (p[0] <= 240) { *v = p[0]; return 1; }
-    if (p[0] <= 248) { *v = 240 + 256 * (uint64_t)(p[0] - 241) + p[1]; return 2; }
-    if (p[0] == 249) { *v = 2288 + 256 * (uint64_t)p[1] + p[2]; return 3; }
-    int nb = p[0] - 247;
-    uint64_t x = 0;
-    for (int i = 0; i < nb; i++) x = (x << 8) | p[1 + i];
-    *v = x;
-    return 1 + nb;
-}
-
 /* highest modified offset + 1 when the encoder runs over two complementary fills */
 static size_t bytes_actually_written(const codec_t *c, const uint64_t *a, size_t n, size_t cap, size_t *ret_out, encinfo_t *info_out, uint8_t **enc_out) {
     size_t hi = 0;
